@@ -104,11 +104,13 @@ def oracle(ck, tier, deep):
         if rng.random() < 0.2:
             c[-1] = 0
         r0 = float(rng.choice([0.0, rng.uniform(-5, 30)]))
-        s = float(rng.choice([1.0, rng.uniform(0.5, 4) * rng.choice([-1, 1])]))
+        s = float(rng.choice([1.0, -1.0, rng.uniform(0.5, 4) * rng.choice([-1, 1])]))          # (unit stretch of either sign included)
         uniform = rng.random() < 0.5
         r = np.arange(40.0) * float(rng.choice([1.0, 0.5])) if uniform else np.sort(np.append(rng.uniform(0, 40, size=39), 0.0))
         rmin, rmax = sorted(rng.uniform(-5, 50, size=2))
         reduced = bool(rng.integers(0, 2))
+        if it % 6 == 0 and rmax > 0.5:
+            s = float(rmax) * (-1 if it % 12 == 0 else 1)          # a stretch equal to ±r_max (unit magnitude in the reduced coordinates)
         ck.count(("S.poly", K, uniform, reduced, rmin < 0, rmax > r[-1], s < 0), suite="S.polynomial")
         rep = dict(degree=K, c=c.tolist(), r_0=r0, s=s, r_min=rmin, r_max=rmax, reduced=reduced, grid="uniform" if uniform else r.tolist())
         sig = dict(site="Polynomial")
@@ -229,6 +231,33 @@ def oracle(ck, tier, deep):
                 ck.violation(dict(site="SPolynomial", clause="abel"), dict(rep, pixel=[i, j]),
                              f"abel[{i},{j}] = {sp.abel[i, j]:.12g}, line-of-sight integral = {wa:.12g}")
                 break
+    # … and on grids with samples exactly on the limits: the domain is r_min ≤ r < r_max — a sample at r_max belongs to the next piece, so
+    # two adjoining pieces are the single piece over both (func and abel), on integer 1-D grids and on pixel grids with integer origin
+    for it in range(6 if not deep else 40):
+        if it % 2 == 0:
+            Rg, Cg = np.arange(0.0, 12.0), rng.uniform(-1, 1, size=12)
+        else:
+            Rg, Cg = quiet(rcos, shape=(11, 13), origin=(5, 6))           # contains r = 5 exactly (3-4-5 pixels) and r = 3, 4 on the axes
+        M, N = int(rng.integers(1, 4)), int(rng.integers(1, 3))
+        c = rng.normal(size=(M, N))
+        c[0, 0] = float(rng.uniform(0.5, 2))
+        a_, b_, c_ = [(2.0, 5.0, 8.0), (0.0, 3.0, 5.0), (1.0, 4.0, 5.0)][it % 3]
+        ck.count(("S.spoly-limits", M, N, it % 2), suite="S.spolynomial")
+        rep = dict(grid="1-D integers" if it % 2 == 0 else "11x13 pixels about (5, 6)", c=c.tolist(), limits=[a_, b_, c_])
+        try:
+            one = quiet(SPolynomial, Rg, Cg, a_, c_, c)
+            two = quiet(PiecewiseSPolynomial, Rg, Cg, [(a_, b_, c), (b_, c_, c)])
+            left = quiet(SPolynomial, Rg, Cg, a_, b_, c)
+        except Exception as e:
+            ck.violation(dict(site="SPolynomial", clause="exception"), rep, f"{type(e).__name__}: {e}")
+            continue
+        scale = np.abs(c).sum() * max(1.0, c_) ** (M - 1)
+        if np.abs(two.func - one.func).max() > 1e-12 * scale or np.abs(two.abel - one.abel).max() > 1e-10 * scale * c_:
+            ck.violation(dict(site="PiecewiseSPolynomial", clause="adjoining-pieces"), rep,
+                         f"pieces [{a_}, {b_}) and [{b_}, {c_}) do not add up to the piece [{a_}, {c_}): func off by {np.abs(two.func - one.func).max():.3g}, "
+                         f"abel by {np.abs(two.abel - one.abel).max():.3g}")
+        if np.abs(left.func[Rg == b_]).max(initial=0.0) != 0 or np.abs(left.func[Rg == a_] - one.func[Rg == a_]).max(initial=0.0) != 0:
+            ck.violation(dict(site="SPolynomial", clause="half-open-domain"), rep, f"func at r = r_max = {b_} is not zero, or at r = r_min = {a_} is not the polynomial")
     # … and on grids with samples almost, but not exactly, on the axis (coordinates built by np.arange / linspace arithmetic leave
     # -2.2e-16 where 0 was meant; non-uniform grids may have a point at 1e-9): abel is the line-of-sight integral there as well —
     # continuous in r, no sample is counted twice or dropped between the on-axis rule and the general formula
